@@ -1,6 +1,6 @@
 """Child process for the crash experiments (C15): runs one scenario against a store under <root> and, when asked,
 dies (os._exit) right before its n-th file-system mutation under <root>.  Everything is imported before the audit
-hook is armed.  Usage: python -m harness.crashchild <scenario> <root> <kill_n|-1> [half]
+hook is armed.  Usage: python -m harness.crashchild <scenario> <root> <kill_n|-1> [half|after]
 """
 from __future__ import annotations
 
@@ -16,6 +16,7 @@ REL = {"f1": "a.txt", "f2": "b é.bin"}
 def main():
     scenario, root, kill_n = sys.argv[1], sys.argv[2], int(sys.argv[3])
     half = len(sys.argv) > 4 and sys.argv[4] == "half"
+    after = len(sys.argv) > 4 and sys.argv[4] == "after"
     import logging
     import shutil
 
@@ -95,6 +96,28 @@ def main():
 
         if hasattr(u, "shutil"):
             u.shutil.copyfile = copyfile
+    elif after:
+        # dies right AFTER its n-th open-for-write under the store has returned: the file exists (created or truncated)
+        # and nothing has been written to it yet
+        import builtins
+
+        real_open = builtins.open
+        seen_o = {"k": 0}
+
+        def opener(file, mode="r", *a, **kw):
+            writing = isinstance(mode, str) and any(ch in mode for ch in "wax+")
+            if writing and not isinstance(file, int) and under(file):
+                fobj = real_open(file, mode, *a, **kw)
+                if seen_o["k"] == kill_n:
+                    os._exit(137)
+                seen_o["k"] += 1
+                return fobj
+            return real_open(file, mode, *a, **kw)
+
+        builtins.open = opener
+        import io
+
+        io.open = opener
     else:
         sys.addaudithook(hook)
 
